@@ -362,12 +362,28 @@ def enum_hexagons(tier, shard, nshards):
             i += 1
             if i % nshards == shard:
                 yield {"r": r, "start": list(s)}
+    # very large radii: only the first chips are taken from the generator
+    for r in (600, 1000, 2500, 100000):
+        i += 1
+        if i % nshards == shard:
+            yield {"r": r, "start": [3, 4], "prefix": 64}
 
 
 def check_hexagons(case):
     from rig import geometry
     r = case["r"]
     sx, sy = case["start"]
+    if case.get("prefix"):
+        k = case["prefix"]
+        with sut("concentric_hexagons"):
+            got = [tuple(c) for _, c in zip(
+                range(k), geometry.concentric_hexagons(r, (sx, sy)))]
+        ds = [hexgrid.hexnorm(x - sx, y - sy) for (x, y) in got]
+        want = [0] + [d for d in range(1, 12) for _ in range(6 * d)]
+        require(len(set(got)) == k and ds == want[:k], "the first chips of "
+                "a large radius are not the nearest rings in order",
+                {"radius": r, "distances": ds[:20]})
+        return {"nontrivial": True, "classes": ["huge-radius"]}
     with sut("concentric_hexagons"):
         # a caller that searches outwards stops at its first hit: a
         # generator of the same radius is abandoned after a few chips
